@@ -585,6 +585,7 @@ impl Writeable for FormattableDuration {
                     let unit_below_minute = self.date.is_none() && hours == 0 && minutes == 0;
 
                     let write_second = seconds != 0
+                        || ns != 0
                         || unit_below_minute
                         || matches!(self.precision, Precision::Digit(_));
 
